@@ -100,6 +100,20 @@ def showSpec : Except Spec.SErr (Spec.SVal Float) → String
   | .error .unknownIdent => "err:InvalidNode"
   | .error .remByZero => "err:InvalidData"
 
+/-- The reference evaluator computes `x ^ y` on mathematical integers: only run it when every
+integer exponent in the tree is small (the model's evaluator tells). -/
+def powSafe (env : Env Float) : Expr Float → Bool
+  | .binOp k l r =>
+    powSafe env l && powSafe env r &&
+      (if k = .pow then
+        match eval .dev env r with
+        | .ok (.int i) => decide (i.toInt < 4096)
+        | _ => true
+      else true)
+  | .unOp _ x => powSafe env x
+  | .ite c t e => powSafe env c && powSafe env t && powSafe env e
+  | _ => true
+
 def handle : List String → String
   | ["run", p, h, env] =>
     match profileOf p, hexToString h, parseEnv env with
@@ -115,8 +129,10 @@ def handle : List String → String
     | some txt, some bs =>
       match (parse txt : R (Expr Float)) with
       | .ok e =>
-        showSpec (Spec.eval (fun n => match lookup bs n with
-          | some (.lit v) => some (Spec.toSVal v) | _ => none) e)
+        if powSafe (fun n => match lookup bs n with | some (.lit v) => some v | _ => none) e then
+          showSpec (Spec.eval (fun n => match lookup bs n with
+            | some (.lit v) => some (Spec.toSVal v) | _ => none) e)
+        else "skip"
       | _ => "parse-fail"
     | _, _ => "bad-op"
   | ["dec", m, k] =>
